@@ -328,7 +328,7 @@ fn apply_op(
         V::MatN(x) => Material::Next(*x),
         V::MatE(e) => Material::Error(e),
         V::MatC => Material::Complete,
-        other => panic!("dematerialize of a non-material item {:?}", other),
+        other => Material::Next(other),
       })
       .dematerialize(),
     "tap" => {
